@@ -17,12 +17,27 @@ ver = ""
 vl = os.path.join(mdir, "verify.log")
 if os.path.exists(vl):
     ver = open(vl).read().strip().splitlines()[-1]
-# run the check
-subprocess.run(["git", "-C", "/repo", "apply", os.path.join(dst, "patch.diff")], check=True)
-try:
-    out = subprocess.run(["/verif/run.sh", "check", prop, "quick"], capture_output=True, text=True).stdout
-finally:
-    subprocess.run("git -C /repo checkout -- . && git -C /repo clean -fdq", shell=True, check=True)
+# run the check (against /repo's tree, or against a scratch worktree at the patch's base commit when
+# a later fix: commit touched the same lines)
+base = os.environ.get("SEED_BASE", "")
+applies = subprocess.run(["git", "-C", "/repo", "apply", "--check", os.path.join(dst, "patch.diff")]).returncode == 0
+if applies:
+    subprocess.run(["git", "-C", "/repo", "apply", os.path.join(dst, "patch.diff")], check=True)
+    try:
+        out = subprocess.run(["/verif/run.sh", "check", prop, "quick"], capture_output=True, text=True).stdout
+    finally:
+        subprocess.run("git -C /repo checkout -- . && git -C /repo clean -fdq", shell=True, check=True)
+    base_used = "HEAD"
+else:
+    assert base, "patch does not apply to HEAD; set SEED_BASE=<commit>"
+    wt = "/tmp/seedwt-" + name
+    subprocess.run(["git", "-C", "/repo", "worktree", "add", "--detach", wt, base], check=True, capture_output=True)
+    try:
+        subprocess.run(["git", "-C", wt, "apply", os.path.join(dst, "patch.diff")], check=True)
+        out = subprocess.run(["/verif/run.sh", "check", prop, "quick"], capture_output=True, text=True, env=dict(os.environ, VERIF_REPO=wt)).stdout
+    finally:
+        subprocess.run(["git", "-C", "/repo", "worktree", "remove", "--force", wt])
+    base_used = base
 rules = sorted(set(re.findall(r"violation: rule=(\S+)", out)))
 summ = [l for l in out.splitlines() if l.startswith("property=")]
 meta = {
@@ -33,6 +48,7 @@ meta = {
     "demo": {"files": [d.replace("_test.go", "_test.go.txt") for d in demos], "copy_into": demodir,
              "how": "copy the demo file (renamed back to *_test.go) into that package directory of a scratch worktree and run `go test -run <its tests> ./" + demodir + "/` with and without patch.diff"},
     "confirmed": {"what_i_ran": "tools/verify_mutant.sh in a fresh scratch worktree: demo on clean tree, git apply, go build ./..., demo on mutant, full `go test -vet=off -count=1 ./...`", "result": ver},
+    "applies_to": base_used if base_used != "HEAD" else "current /repo HEAD at import time",
     "detection": {"status_when_first_run": initially, "detected_now_by_rules": rules, "check_summary": summ[0] if summ else "", "note": note},
 }
 json.dump(meta, open(os.path.join(dst, "meta.json"), "w"), indent=1)
